@@ -16,6 +16,28 @@ CHECKS = {
              "buffering as on this platform.",
         technique="model-based property testing: bounded-exhaustive + Hypothesis-generated op histories vs. reference dict",
     ),
+    "C03": dict(
+        category="fault_enumeration",
+        text="For each generated (committed records, append session, recovery session) the write stream of the session is recorded and EVERY byte "
+             "prefix of it is materialised as a crash image (exhaustive per session); each image is reopened read-only, reopened for append with "
+             "recovery puts (incl. re-using the torn key), and crashed a second time at every byte of the recovery stream. Oracle: committed records exact, "
+             "session records all-or-nothing, nothing foreign listed. Fault enumeration over crash points is exactly the property's quantifier.",
+        design_ref="DESIGN.md section 5, C03",
+        note="Crash model = prefix of the bytes handed to the file object in call order (no reordering below the file API); torn file header excluded; "
+             "records > 8 kB are sampled (every 16th/64th offset + all offsets near field boundaries), not exhaustive.",
+        technique="exhaustive crash-point enumeration over Hypothesis-generated sessions, all-or-nothing oracle",
+    ),
+    "C04": dict(
+        category="fault_enumeration",
+        text="(a) harness-owned schedules: all sequences of <=2/<=3 sessions over 9 session kinds (6 failing, faults injected at body / encoder / flush-time "
+             "backend write / end_write / end_read) on handles living in three processes, with a lock probe from a fresh process after every session; "
+             "(b) real 8-16 process schedules with random delays whose oracle (timestamps taken inside the protected body, hand-over after failing sessions) "
+             "cannot misfire on correct locking. Real interleavings are sampled, only session-granular schedules are exhaustive.",
+        design_ref="DESIGN.md section 5, C04",
+        note="Threads sharing a handle and nested same-process sessions are outside the claim; CLOCK_MONOTONIC is system-wide on Linux; fault injection by "
+             "replacing bound methods on backend instances.",
+        technique="fault-injection enumeration of session sequences + randomized multi-process schedules with interval-overlap oracle",
+    ),
 }
 
 PENDING_REASON = "check under construction in this session; not claimed until its harness is committed"
